@@ -805,6 +805,10 @@ def _xdma_layout(spec, shape):
     for d in reversed(range(len(shape) - 1)):
         outer.insert(0, f"[{shape[d]}] -> ({cur})")
         cur *= shape[d]
+    g = spec.get("group") or 0
+    if g > 1 and (n // t) % g == 0:
+        # the same addresses written with three tile levels: groups of g tiles, the groups dense above the padded pitch
+        return "#tsl.tsl<" + ", ".join(outer + [f"[{n // t // g}, {g}, {t}] -> ({g * pitch}, {pitch}, 1)"]) + ">"
     return "#tsl.tsl<" + ", ".join(outer + [f"[{n // t}, {t}] -> ({pitch}, 1)"]) + ">"
 
 
@@ -1101,7 +1105,8 @@ def recipe_xdma(draw, tier):
     for _ in range(3):
         if draw(st.integers(0, 2)) == 0:
             # contiguous tiles at a padded pitch (gap in elements; 8 i8 elements = one bank word)
-            given.append(dict(tile=draw(st.sampled_from([16, 16, 16, 32, 64])), gap=draw(st.sampled_from([16, 16, 8, 48, 112]))))
+            given.append(dict(tile=draw(st.sampled_from([16, 16, 16, 32, 64])), gap=draw(st.sampled_from([16, 16, 8, 48, 112])),
+                              group=draw(st.sampled_from([0, 0, 2, 4]))))
         else:
             g = draw(_given(rank, 1, 16))
             if "offset" in g and draw(st.integers(0, 3)) != 0:
@@ -1134,6 +1139,7 @@ def exhaustive_xdma(tier):
                 yield dict(kernel=kernel, layout=layout, shape=[n], transpose_in=False, given=[dict(perm=[0], pad=[0], offset=0)])
             for gap in (16, 48):
                 yield dict(kernel=kernel, layout="given", shape=[n], transpose_in=False, given=[dict(tile=16, gap=gap)])
+                yield dict(kernel=kernel, layout="given", shape=[n], transpose_in=False, given=[dict(tile=16, gap=gap, group=2)])
         for a in (4, 8, 16, 32, 64, 128):
             for b in (1, 2, 3, 4, 6, 8, 16, 20):
                 for shape in ([a, b], [b, a]):
